@@ -70,6 +70,13 @@ def registeredAs (reg : List Entry) (s : Svc) (oid : Nat) : Bool :=
 
 def regRemove (reg : List Entry) (k : String) : List Entry := reg.filter (fun e => !(key lower e.svc == k))
 
+/-- `registry.async_remove(info)` as `async_unregister_service` calls it.  The registry is keyed by name, so the entry goes
+whatever object is passed (the registered one, an equal-but-distinct one, the handle from before `update_service`); the two
+generated leaves say whether `async_remove`/`_remove` test object identity (they do not: `GenFacts/Goodbye.lean`). -/
+def unregRemove (reg : List Entry) (s : Svc) (oid : Nat) : List Entry :=
+  if (Gen.Register.registry_remove_by_identity || Gen.Register.registry_remove_inner_by_identity) && !(registeredAs lower reg s oid) then reg
+  else regRemove lower reg (key lower s)
+
 /-- `async_get_infos_server(server_key)` is non-empty -/
 def hostShared (reg : List Entry) (s : Svc) : Bool := reg.any (fun e => serverKey lower e.svc == serverKey lower s)
 
@@ -185,7 +192,7 @@ def Host.step (h : Host) : Block → Option (Host × List Pkt)
     if h.tasks.any (fun t => t.oid == oid && t.svc != s) then none
     else some ({ h with reg := regRemove lower h.reg (key lower s) ++ [⟨s, oid⟩], tasks := h.tasks ++ [announceTask s oid now] }, [])
   | .unregister s oid now =>
-    let reg' := regRemove lower h.reg (key lower s)
+    let reg' := unregRemove lower h.reg s oid
     let shared := hostShared lower reg' s
     let W := withdrawn s shared
     let purge := fun q => if Gen.Register.unregister_purges_queues then qpurge lower W q else q
